@@ -63,6 +63,10 @@ class CallMixin:
             if h is not None:
                 return h(self, [recv] + list(args), kwargs, st, node)
             return self.call_container_method(recv, name, args, kwargs, st, node)
+        if isinstance(recv, SStr):
+            h = self.externals.get('strmethod:' + name)
+            if h is not None:
+                return h(self, [recv] + list(args), kwargs, st, node)
         if isinstance(recv, SVal):
             # method of an opaque object (e.g. E.keys): handled by the external table if declared
             return self.call_external('opaque.' + name, [recv] + list(args), kwargs, st, node)
@@ -629,6 +633,9 @@ class CallMixin:
     # lists
     def lm_append(self, l, args, kwargs, st, node):
         s = st.copy()
+        if 'cat' in l.cls.fields:      # ghost: the concatenation of a list of byte strings
+            s = s.copy()
+            self.hstore(s, l, 'cat', z3.Concat(self.hload(s, l, 'cat'), self.coerce(s, args[0], l.cls.e)))
         n = self.hload(s, l, 'len')
         self.hstore(s, l, 'elems', z3.Store(self.hload(s, l, 'elems'), n, self.coerce(s, args[0], l.cls.e)))
         self.hstore(s, l, 'len', n + 1)
